@@ -14,6 +14,7 @@ UNITS = {
     'SESSENG': dict(template='sesseng.rs', rlimit=40),
     'CONNENG': dict(template='conneng.rs', rlimit=40),
     'TRANSPORT': dict(template='transport.rs', rlimit=30),
+    'LINKDETACH': dict(template='linkdetach.rs', rlimit=30),
 }
 
 COMMON_TRUSTED = [
@@ -163,7 +164,7 @@ PROPS = {
             'slab::Slab is modelled as a partial map whose vacant key is unoccupied (trusted stand-in)',
             'concurrent attaches are serialised by the session engine (not verified)']),
     'C13': dict(
-        units=['SESSION', 'LINK', 'SESSENG'],
+        units=['SESSION', 'LINK', 'SESSENG', 'LINKDETACH'],
         lemmas={'SESSENG': ['lemma_ext_trans']}, kani=[], level='proof', title='Session and link lifecycles',
         assumptions=[ASYNC, ENGINE,
             'answered-no-later-than / returns-only-after clauses of the property are liveness statements and are not decided',
